@@ -13,6 +13,7 @@
    recover()). *)
 From Coq Require Import List Bool ZArith String.
 From CliUtils Require Import Base.Json Model.KStatus Proofs.KStatusProofs.
+From CliUtils Require Import Generated.SourceTables Proofs.SourceTablesAgree.
 Import ListNotations.
 Local Open Scope string_scope.
 
@@ -45,6 +46,13 @@ Theorem C09_clock_only_unschedulable : forall (j : jv),
                c_reason c = "Unschedulable".
 Proof. exact pod_clock. Qed.
 
+(* the kind dispatch of the model is the legacyTypes table extracted from
+   pkg/kstatus/status/core.go on this run (harness/cmd/gentables) *)
+Theorem C09_dispatch_from_source : forall key,
+  KStatus.legacy_of_key key =
+  match assoc key src_legacy_types with Some fn => legacy_of_fn fn | None => None end.
+Proof. exact legacy_dispatch_from_source. Qed.
+
 Print Assumptions C09_wellformed.
 Print Assumptions C09_total.
 Print Assumptions C09_clock_only_pods.
@@ -76,3 +84,4 @@ Example C09_ex_current : compute (JObj [("kind", JStr "Widget")]) true = Ok Curr
 Proof. vm_compute. reflexivity. Qed.
 Example C09_ex_error : compute ex_bad_status true = Err.
 Proof. vm_compute. reflexivity. Qed.
+Print Assumptions C09_dispatch_from_source.
